@@ -548,18 +548,22 @@ def project_final(ctx, models):
 
 
 # ---------------------------------------------------------------------------------- scenarios
+def mc_env(family, max_objs, max_files, max_refs, max_postpone, dev="", emit=False, full_tables=3):
+    """Environment of every MC_LoaderProc configuration (the bounds are read through IOEnv)."""
+    return dict(VT_DEV=dev, VT_FAMILY=family, VT_MAXOBJS=max_objs, VT_MAXFILES=max_files, VT_MAXREFS=max_refs,
+                VT_MAXPOSTPONE=max_postpone, VT_EMIT="1" if emit else "0", VT_FULLTABLES=full_tables)
+
+
 def emit_shapes(tlc, max_objs, max_files=2, max_refs=2):
     """The shape universe of MC_LoaderProc (TLC enumerates it; one SCEN line per shape)."""
-    env = dict(VT_DEV="", VT_FAMILY="shapes", VT_MAXOBJS=max_objs, VT_MAXFILES=max_files, VT_MAXREFS=max_refs,
-               VT_MAXPOSTPONE=0)
+    env = mc_env("shapes", max_objs, max_files, max_refs, 0)
     r = tlc.model_check("MC_LoaderProc", cfg="MC_LoaderProc_Emit.cfg", env=env, workers=1, timeout=3000)
     tlc.require_ok(r, "shape emission")
     return r, r.results("SCEN")
 
 
 def emit_family(tlc, family, max_objs, max_files, max_refs, max_postpone):
-    env = dict(VT_DEV="", VT_FAMILY=family, VT_MAXOBJS=max_objs, VT_MAXFILES=max_files, VT_MAXREFS=max_refs,
-               VT_MAXPOSTPONE=max_postpone)
+    env = mc_env(family, max_objs, max_files, max_refs, max_postpone)
     r = tlc.model_check("MC_LoaderProc", cfg="MC_LoaderProc_Emit.cfg", env=env, workers=1, timeout=3000)
     tlc.require_ok(r, f"scenario emission {family}")
     return r, r.results("SCEN")
